@@ -13,7 +13,21 @@ pub struct Chunked {
 }
 impl Read for Chunked {
     fn read(&mut self, buf: &mut [u8]) -> std::io::Result<usize> {
-        let want = if self.i < self.sizes.len() { self.sizes[self.i].max(1) } else { buf.len() };
+        let want = if self.i < self.sizes.len() {
+            let s = self.sizes[self.i];
+            // values >= 10^9 are relative to the space offered: 10^9+1 -> len-1, 10^9+d -> len/d
+            if s >= 1_000_000_000 {
+                if s == 1_000_000_001 {
+                    (buf.len().saturating_sub(1)).max(1)
+                } else {
+                    (buf.len() / (s - 1_000_000_000)).max(1)
+                }
+            } else {
+                s.max(1)
+            }
+        } else {
+            buf.len()
+        };
         self.i += 1;
         let n = want.min(buf.len()).min(self.data.len() - self.pos);
         buf[..n].copy_from_slice(&self.data[self.pos..self.pos + n]);
@@ -75,11 +89,13 @@ impl Area for Lm {
         let n = rng.below(n0) as usize;
         let nsched = rng.below(40) as usize;
         let sizes: Vec<usize> = (0..nsched)
-            .map(|_| match rng.below(5) {
+            .map(|_| match rng.below(7) {
                 0 => 1,
                 1 => 1 + rng.below(10) as usize,
                 2 => 4096,
                 3 => 1 + rng.below(5000) as usize,
+                4 => 1_000_000_001 + rng.below(4) as usize, // relative to the offered space: len-1, len/2, len/3, len/4
+                5 => 1_000_000_002,
                 _ => 1 + rng.below(300) as usize,
             })
             .collect();
